@@ -768,6 +768,91 @@ Lemma witness_shift_hyps :
                  = poly_ev 2 (rstate Witness.c1 Witness.t1 r) y x.
 Proof.
   intros r Hin. cbn in Hin. destruct Hin as [<-|[<-|[]]].
-  - repeat split; try (vm_compute; reflexivity). apply poly_ev_shift; vm_compute; reflexivity.
-  - repeat split; try (vm_compute; reflexivity). apply poly_ev_shift; vm_compute; reflexivity.
+  - do 4 (split; [vm_compute; reflexivity|]). apply poly_ev_shift; vm_compute; reflexivity.
+  - do 4 (split; [vm_compute; reflexivity|]). apply poly_ev_shift; vm_compute; reflexivity.
+Qed.
+
+(* ------------------------------------------------------------------ *)
+(* 8. the unrepaired loop: whenever it returns, it returns the same image *)
+(* ------------------------------------------------------------------ *)
+Lemma overlap_orig_none arr ny nx sh y8 x8 :
+  overlap_slices_orig arr ny nx sh y8 x8 = OvNone -> overlap_slices ny nx sh y8 x8 = None.
+Proof.
+  unfold overlap_slices_orig. destruct sh as [shy shx]. cbn [fst snd].
+  destruct (overlap_slices ny nx (shy, shx) y8 x8) as [w|] eqn:E; [|reflexivity].
+  unfold overlap_slices in E. cbv zeta in E.
+  destruct arr; [|discriminate].
+  destruct (e_min y8 shy + shy <? 0) eqn:A1.
+  - intros _. cbn [orb] in E. discriminate.
+  - destruct (e_min y8 shy + shy =? 0); [discriminate|].
+    destruct (e_min x8 shx + shx <? 0) eqn:A2.
+    + intros _. cbn [orb andb] in E. discriminate.
+    + destruct (e_min x8 shx + shx =? 0); discriminate.
+Qed.
+
+Lemma overlap_orig_some arr ny nx sh y8 x8 w :
+  overlap_slices_orig arr ny nx sh y8 x8 = OvSome w -> overlap_slices ny nx sh y8 x8 = Some w.
+Proof.
+  unfold overlap_slices_orig.
+  destruct (overlap_slices ny nx sh y8 x8) as [w'|].
+  - destruct arr; [|intros [= ->]; reflexivity].
+    destruct (_ <? 0); [discriminate|]. destruct (_ =? 0); [discriminate|].
+    destruct (_ <? 0); [discriminate|]. destruct (_ =? 0); [discriminate|].
+    intros [= ->]. reflexivity.
+  - destruct arr; [|discriminate].
+    destruct (_ <? 0); [discriminate|]. destruct (_ =? 0); [discriminate|].
+    destruct (_ <? 0); [discriminate|]. destruct (_ =? 0); discriminate.
+Qed.
+
+Section Orig.
+Variable ev : pstate -> Z -> Z -> Z.
+Variable bbox_shape : option Z -> pstate -> Z * Z.
+Variable ev_unit : pstate -> option Z.
+Variable c : config.
+Variable t : table.
+Variable m : dict string.
+Variable shapes : list (Z * Z).
+Variable bkgs : list Z.
+Notation sorig := (step_orig ev bbox_shape ev_unit c t m shapes bkgs).
+Notation snew := (step ev bbox_shape ev_unit c t m shapes bkgs).
+
+Lemma fold_orig_none l : fold_left sorig l None = None.
+Proof. induction l as [|r l IH]; [reflexivity|exact IH]. Qed.
+
+Lemma fold_orig_agrees l : forall i st img u u0 i' st' img' u',
+  fold_left sorig l (Some (i, st, img, u)) = Some (i', st', img', u') ->
+  acc_img (fold_left snew l (i, st, img, u0)) = img'.
+Proof.
+  induction l as [|r l IH]; intros i st img u u0 i' st' img' u' H.
+  - cbn in H. injection H as _ _ <- _. reflexivity.
+  - cbn [fold_left] in *.
+    unfold step_orig at 2 in H. unfold step at 2. cbv zeta in *.
+    set (sta := assign m (colnames t) r st) in *.
+    set (sh := if has_shape_col t then nth i shapes (0, 0)
+               else match mshape c with None => bbox_shape (bfactor c) sta | Some s => s end) in *.
+    destruct (overlap_slices_orig _ (ny c) (nx c) sh (pget (y_name c) sta) (pget (x_name c) sta)) as [| |w] eqn:E.
+    + rewrite fold_orig_none in H. discriminate.
+    + rewrite (overlap_orig_none _ _ _ _ _ _ E). eapply IH, H.
+    + rewrite (overlap_orig_some _ _ _ _ _ _ _ E).
+      destruct (ev_unit sta) as [un|] eqn:Eu.
+      * destruct (if Nat.eqb i 0 then Some un else u) eqn:Eu'.
+        -- eapply IH, H.
+        -- rewrite fold_orig_none in H. discriminate.
+      * eapply IH, H.
+Qed.
+End Orig.
+
+Lemma render_orig_agrees ev bbox_shape ev_unit c t u img :
+  render_orig ev bbox_shape ev_unit c t = Img u img ->
+  exists u', render ev bbox_shape ev_unit c t = Img u' img.
+Proof.
+  unfold render_orig. destruct (accepted c t) eqn:Ea; cbn [negb]; [|discriminate].
+  destruct (fold_left _ (rows t) _) as [[[[i st] img'] u']|] eqn:E; [|discriminate].
+  intros [= <- <-].
+  pose proof (fold_orig_agrees ev bbox_shape ev_unit c t _ _ _ (rows t) _ _ _ _ None _ _ _ _ E) as H.
+  unfold C18_Model.render. cbv zeta.
+  unfold accepted in Ea. apply andb_true_iff in Ea. destruct Ea as [Ev Es].
+  rewrite Ev. cbn [negb]. apply negb_true_iff in Es. rewrite Es.
+  destruct (fold_left _ (rows t) (0%nat, pinit c, zeros (ny c) (nx c), None)) as [[[i2 st2] img2] u2].
+  unfold acc_img in H. cbn [fst snd] in H. subst img2. eexists. reflexivity.
 Qed.
